@@ -35,7 +35,11 @@ Roots == { Tok("svg", "", 0, FALSE, <<NoL, NoL, A(200), A(100), <<>>, XMid>>),
            Tok("svg", "", 1, FALSE, <<NoL, NoL, NoL, NoL, <<I(-10), I(5), I(50), I(25)>>, XMid>>) }
 Opens == { Tok("g", "", 1, FALSE, <<>>), Tok("g", "a", 3, FALSE, <<>>), Tok("g", "", 0, TRUE, <<>>), Tok("defs", "", 0, FALSE, <<>>),
            Tok("svg", "", 0, FALSE, <<A(20), A(10), A(80), A(40), <<I(0), I(0), I(40), I(40)>>, <<"xMinYMax", "slice">>>>),
-           Tok("svg", "", 0, FALSE, <<A(20), A(10), Pc(50), Pc(50), <<>>, XMid>>) } \cup
+           Tok("svg", "", 0, FALSE, <<A(20), A(10), Pc(50), Pc(50), <<>>, XMid>>),
+           \* viewBox with a non-zero origin and another aspect ratio than its viewport: default alignment (attribute mostly omitted:
+           \* nothing may be inherited from an enclosing svg) and preserveAspectRatio="none" (two different scale factors)
+           Tok("svg", "", 0, FALSE, <<A(5), A(5), A(60), A(20), <<I(-10), I(5), I(20), I(20)>>, XMid>>),
+           Tok("svg", "", 0, FALSE, <<A(5), A(5), A(60), A(20), <<I(-10), I(5), I(20), I(20)>>, <<"none", "">>>>) } \cup
          (IF Full THEN { Tok("svg", "s", 2, FALSE, <<NoL, NoL, A(96), A(48), <<I(0), I(0), I(0), I(10)>>, XMid>>),
                          Tok("g", "", 6, FALSE, <<>>), Tok("svg", "", 0, FALSE, <<Pc(10), NoL, NoL, NoL, <<I(0), I(0), I(10), I(20)>>, <<"none", "">>>>) } ELSE {})
 Leaves == { Tok("rect", "b", 0, FALSE, <<A(1), A(2), A(30), A(40), NoL, NoL>>),
